@@ -204,8 +204,23 @@ func (a *aclRecordBuilder) BuildBatchRequest(payload BatchRequestPayload) (batch
 			return batchResult, ErrReadKeyChangeNotAlone
 		}
 	}
+	// a removal rotates the read key: the invites revoked by the same record are revoked first, so that they are gone
+	// from the state by the time the rotation lands and the new key is not encrypted for them
+	revokesFirst := len(payload.Removals.Identities) > 0 && len(payload.InviteRevokes) > 0
+	var revokedInvites map[string]struct{}
+	if revokesFirst {
+		revokedInvites = make(map[string]struct{}, len(payload.InviteRevokes))
+		for _, id := range payload.InviteRevokes {
+			content, err = a.buildInviteRevoke(id)
+			if err != nil {
+				return
+			}
+			contentList = append(contentList, content)
+			revokedInvites[id] = struct{}{}
+		}
+	}
 	if len(payload.Removals.Identities) > 0 {
-		content, err = a.buildAccountRemove(payload.Removals)
+		content, err = a.buildAccountRemove(payload.Removals, revokedInvites)
 		if err != nil {
 			return
 		}
@@ -240,6 +255,9 @@ func (a *aclRecordBuilder) BuildBatchRequest(payload BatchRequestPayload) (batch
 		contentList = append(contentList, content)
 	}
 	for _, id := range payload.InviteRevokes {
+		if revokesFirst {
+			break
+		}
 		content, err = a.buildInviteRevoke(id)
 		if err != nil {
 			return
@@ -909,14 +927,14 @@ func (a *aclRecordBuilder) buildReadKeyChange(payload ReadKeyChangePayload, remo
 }
 
 func (a *aclRecordBuilder) BuildAccountRemove(payload AccountRemovePayload) (rawRecord *consensusproto.RawRecord, err error) {
-	content, err := a.buildAccountRemove(payload)
+	content, err := a.buildAccountRemove(payload, nil)
 	if err != nil {
 		return
 	}
 	return a.buildRecord(content)
 }
 
-func (a *aclRecordBuilder) buildAccountRemove(payload AccountRemovePayload) (value *aclrecordproto.AclContentValue, err error) {
+func (a *aclRecordBuilder) buildAccountRemove(payload AccountRemovePayload, revokedInvites map[string]struct{}) (value *aclrecordproto.AclContentValue, err error) {
 	deletedMap := map[string]struct{}{}
 	for _, key := range payload.Identities {
 		permissions := a.state.Permissions(key)
@@ -940,7 +958,7 @@ func (a *aclRecordBuilder) buildAccountRemove(payload AccountRemovePayload) (val
 		}
 		marshalledIdentities = append(marshalledIdentities, protoIdentity)
 	}
-	rkChange, err := a.buildReadKeyChange(payload.Change, deletedMap, nil)
+	rkChange, err := a.buildReadKeyChange(payload.Change, deletedMap, revokedInvites)
 	if err != nil {
 		return nil, err
 	}
